@@ -22,6 +22,10 @@ pub struct DripCase {
     pub drain_feed: crate::ring::Sz,
     #[serde(default = "sz_all")]
     pub drain_free: crate::ring::Sz,
+    /// the writers of the inputs go away as soon as everything has been fed, even if the
+    /// block is still clogged (instead of after it went quiet)
+    #[serde(default)]
+    pub close_early: bool,
 }
 fn sz_all() -> crate::ring::Sz {
     crate::ring::Sz::All
@@ -44,13 +48,16 @@ pub fn dripcase_strategy(
         spec,
         [gen_strategy(max_len), gen_strategy(max_len), gen_strategy(max_len)],
         tag_every,
-        1u8..5,
-        1u8..5,
+        // mostly 1-4 pages (wrap and full states are routine); one case in eight per side gets a
+        // 16 or 64 page stream, so that a single work() window can hold tens of thousands of
+        // samples (per-call caps inside a block)
+        prop_oneof![14 => 1u8..5, 1 => Just(16u8), 1 => Just(64u8)],
+        prop_oneof![14 => 1u8..5, 1 => Just(16u8), 1 => Just(64u8)],
         schedule_strategy(max_sched),
         drain_sz(),
-        drain_sz(),
+        (drain_sz(), prop::bool::weighted(0.3)),
     )
-        .prop_map(|(spec, gens, tag_every, in_pages, out_pages, schedule, drain_feed, drain_free)| DripCase {
+        .prop_map(|(spec, gens, tag_every, in_pages, out_pages, schedule, drain_feed, (drain_free, close_early))| DripCase {
             spec,
             gens,
             tag_every,
@@ -59,6 +66,7 @@ pub fn dripcase_strategy(
             schedule,
             drain_feed,
             drain_free,
+            close_early,
         })
         .boxed()
 }
@@ -81,6 +89,7 @@ pub fn drive_opts(case: &DripCase) -> DriveOpts {
     DriveOpts {
         drain_feed: case.drain_feed,
         drain_free: case.drain_free,
+        close_early: case.close_early,
         ..DriveOpts::default()
     }
 }
